@@ -58,6 +58,22 @@ CHECKS = {
           "has no state effect, that acceptance implies a valid MAC under the current chained state over an injective encoding of (ad, chunk). The model is tied to the code by random histories "
           "(push, rekey, genuine and forged pulls: replayed, skipped, swapped, truncated, bit-flipped, wrong-ad, foreign), comparing outputs and the full 44-byte state after every operation."),
     note=NOTE_COMMON + "'any deviation is rejected' beyond the MAC statement is MAC unforgeability (cryptographic), exercised by forged pulls only."),
+ "C01": dict(
+    category="proof", design_ref="DESIGN.md §3.1",
+    technique="Lean 4 theorems over a model parameterised by keystream/MAC/H-core (MAC-data layout = RFC 8439, combined = detached || tag, block0 staging = stream at offset 32, NaCl form, decrypt∘encrypt = id) + differential correspondence against executable RFC 8439 / XSalsa20-Poly1305 / SP 800-38D / AEGIS specs on every backend",
+    text=("ChaCha20-Poly1305 (original, IETF), XChaCha20-Poly1305, secretbox (XSalsa20, XChaCha20; detached, easy, NaCl zero-padded) are modelled as written with keystream, Poly1305 and H-cores as parameters; Lean proves "
+          "the composition for every key, nonce, ad and message of any length: Poly key from block 0, ciphertext from block 1, the C padding arithmetic equals RFC 8439 pad16, all call forms agree byte for byte, "
+          "and decryption of the output returns the message and its length. AES-256-GCM and AEGIS-128L/256 are compared against executable specifications (no structural model). The tie runs every message "
+          "length 0..2100 and ad length 0..70 on every backend (CPU masks x build variants); the harness also requires form agreement and round trip on the implementation itself."),
+    note=NOTE_COMMON + "primitives are parameters (tied by C03/C04 correspondence); AES-GCM/AEGIS: translation validation only; box/seal key agreement under C05."),
+ "C02": dict(
+    category="proof", design_ref="DESIGN.md §3.2",
+    technique="Lean 4 theorems on the decision logic (success iff exact tag match via the proved crypto_verify_16 model, short inputs, failure outputs, injective MAC-data encodings) + forged-input differential correspondence (every bit flip / truncation / extension)",
+    text=("For the ChaCha20-Poly1305 family and secretbox Lean proves: decryption succeeds iff the supplied tag equals the Poly1305 value of the (injectively encoded) input, any tag change is rejected, inputs shorter "
+          "than the tag are rejected touching nothing, on failure the reported length is 0 and the output buffer is untouched or a constant filler, verify-only mode never writes. 'Any other modification is rejected' is "
+          "MAC unforgeability and is stated as a _partial theorem (hypothesis: MAC differs); it is exercised on the real code by flipping every bit of tag/ciphertext/ad/nonce/key, every truncation and 17 extensions of "
+          "valid tuples for all six AEADs and both secretbox variants, comparing return code, length and the whole sentinel-prefilled output buffer with the model."),
+    note=NOTE_COMMON + "cryptographic (probabilistic) part is not provable: partial by nature; secretstream under C09, auth/onetimeauth verify under C04, sign_open under C06."),
 }
 
 NOT_YET = {}
@@ -68,10 +84,16 @@ ALL = ["C%02d" % i for i in range(1, 21)]
 def main():
     reasons = json.load(open(os.path.join(V, "tools", "not_applicable.json"))) if os.path.exists(os.path.join(V, "tools", "not_applicable.json")) else {}
     checks = []
+    sys.path.insert(0, os.path.join(V, "tools"))
+    import importlib
     for pid in ALL:
         if pid not in CHECKS:
             continue
-        c = CHECKS[pid]
+        c = dict(CHECKS[pid])
+        mod = importlib.import_module("props." + pid.lower())
+        if c["category"] == "proof" and not getattr(mod, "THEOREMS", []):
+            c["category"] = "exploration"     # theorems for this property are not merged yet: claim only what the evidence file will show
+            c["text"] = "(Lean theorems for this property are still being proved; until they are merged this check claims exploration only.) " + c["text"]
         checks.append({
             "property_id": pid,
             "quick_cmd": "python3 tools/check.py %s --tier quick" % pid,
